@@ -11,7 +11,7 @@
    of [WCompile]; the comparison accepts an observation iff SOME order reproduces it
    (tried: the nodes the Compile consumed, then every node next), and continues from
    that state. *)
-From Eino Require Import Base.Util Model.Builder.
+From Eino Require Import Base.Util Model.Builder Model.BuilderNested.
 
 Inductive obs : Type := BOk | BErr (e : ecls) | BPanic.
 
@@ -209,7 +209,30 @@ Fixpoint replay_w (v : ver) (w : wstate) (prev : list N) (cs : list (wcall * see
     end
   end.
 
+(* nested builders (Model/BuilderNested.v): the snapshot is the outer graph's followed by every inner
+   graph's, its entries prefixed with the inner graph's name; the runners whose views are followed are
+   those of the outer graph (an inner runnable that changes shows up as intact = false on the
+   implementation's side only, i.e. as a mismatch) *)
+Local Open Scope string_scope.
+Definition snap_nested (s : nstate) : list string :=
+  snap_graph (ns_out s)
+  ++ flat_map (fun ig => map (fun l => "I" +++ fst ig +++ "/" +++ l) (snap_graph (snd ig))) (ns_inn s).
+Local Open Scope list_scope.
+
+Definition is_outer_compile (c : ncall) : bool := match c with NOuter (GCompile _) => true | _ => false end.
+
+Fixpoint replay_n (s : nstate) (prev : list N) (cs : list (ncall * seen)) (rs : issued) : option bool :=
+  match cs with
+  | [] => Some (all_intact (ns_out s) rs)
+  | (c, (b, d)) :: rest =>
+    let '(s', o) := nstep s c in
+    let st := apply_diff prev d in
+    if matches o b && same_state (snap_nested s' ++ snap_out o) st
+    then replay_n s' st rest (if is_outer_compile c then note (ns_out s') o rs else rs) else None
+  end.
+
 Inductive ccase : Type :=
+| CaseN (has_state : bool) (calls : list (ncall * seen)) (intact : bool)
 | CaseG (has_state : bool) (calls : list (gcall * seen)) (intact : bool)
 | CaseC (has_state : bool) (calls : list (ccall * seen)) (intact : bool)
 | CaseW (has_state : bool) (calls : list (wcall * seen)) (intact : bool).
@@ -222,6 +245,7 @@ Definition verdict (r : option bool) (intact : bool) : bool :=
 
 Definition bad (c : ccase) : bool :=
   match c with
+  | CaseN st calls intact => verdict (replay_n (n_init st) (hstate (snap_nested (n_init st))) calls []) intact
   | CaseG st calls intact => verdict (replay_g fixed (g_init CGraph st) (hstate (snap_graph (g_init CGraph st))) calls []) intact
   | CaseC st calls intact => verdict (replay_c fixed (c_init st) (hstate (snap_chain (c_init st))) calls []) intact
   | CaseW st calls intact => verdict (replay_w fixed (w_init st) (hstate (snap_wf (w_init st))) calls []) intact
